@@ -138,7 +138,13 @@ func (s *attrStore) Attrs(id uint64) (m map[string]interface{}, err error) {
 	// Add to cache.
 	s.attrCache.Set(id, m)
 
-	return m, nil
+	// Return a copy, like a cache hit does: the caller must not be able to
+	// modify the cached map or the shared empty map.
+	ret := make(map[string]interface{}, len(m))
+	for k, v := range m {
+		ret[k] = v
+	}
+	return ret, nil
 }
 
 // SetAttrs sets attribute values for a given ID.
